@@ -1,6 +1,7 @@
 import LdkModel.Driver.Util
 import LdkModel.Model.KvStore
 import LdkModel.Model.MonPersister
+import LdkModel.Model.FsStore
 /-! C19 model drivers.
   `c19kv`  — the map store with the validity rules (`Kv.KvOp.apply`) against FilesystemStore(V2).
   `c19mup` — `MonP.start/stepEv/cleanupStale/archive/readAll` (the functions of the theorems) against
@@ -21,25 +22,68 @@ def joinOr (sep : String) (l : List String) : String := if l.isEmpty then "-" el
 
 def showKey (k : Key) : String := hexStr k.1 ++ "/" ++ hexStr k.2.1 ++ "/" ++ hexStr k.2.2
 
-def showKvAns : KvAns (List UInt8) → String
+def showKvErr : KvErr → String := KvErr.name
+
+/-- answer lines of the file-level model (`Fs.step`), same canonical form as the harness -/
+def showFsAns : Fs.FsAns (List UInt8) → String
   | .ok => "ok"
   | .value v => "val " ++ hex v
+  | .tornValue => "torn"
   | .names l => "names " ++ joinOr "," (sortStrs (l.map hexStr))
   | .err e => "err " ++ e.name
+  | .errBadEntry => "err Other:Failed_to_list_keys"
 
+def showPath (k : Key) : String := "/".intercalate ([k.1, k.2.1, k.2.2].filter (fun c => !c.isEmpty))
+
+structure KvSt where
+  /-- `use_empty_ns_dir`: false = FilesystemStore (v1), true = FilesystemStoreV2 -/
+  ue : Bool := false
+  st : Fs.St (List UInt8) := Fs.fresh []
+  /-- issued, not yet executed async operations, by script id -/
+  pend : List (Nat × Fs.Pending (List UInt8)) := []
+
+def dashStr (s : String) : String := if s == "-" then "" else unhexStr s
+
+/-- `c19kv`: the FILE-LEVEL model (`Fs.step`, `Fs.issue`, `Fs.exec`, `Fs.listAll` — the functions of
+    `fs_refines_map`, `crash_never_tears`, `async_last_issued_wins`) against FilesystemStore(V2):
+    sync calls, planted artifacts + restart, the directory contents, async issue / completion orders. -/
 def c19kv : Drv where
-  σ := Store (List UInt8)
-  init := []
+  σ := KvSt
+  init := {}
   step := fun s ws =>
-    let run (op : KvOp (List UInt8)) := let r := KvOp.apply s op; (r.1, showKvAns r.2)
+    let run (op : KvOp (List UInt8)) := let r := Fs.step s.ue s.st op; ({ s with st := r.1 }, showFsAns r.2)
+    let mkOp (ws : List String) : Option (KvOp (List UInt8)) :=
+      match ws with
+      | ["w", p, sn, k, v] => some (.write (unhexStr p, unhexStr sn, unhexStr k) (unhex v))
+      | ["d", p, sn, k, lz] => some (.remove (unhexStr p, unhexStr sn, unhexStr k) (lz == "1"))
+      | _ => none
     match ws with
-    | ["reset"] => ([], "ok")
-    | ["w", p, sn, k, v] => run (.write (unhexStr p, unhexStr sn, unhexStr k) (unhex v))
+    | ["reset", v] => ({ ue := Fs.layoutOf (v == "v2"), st := Fs.fresh [], pend := [] }, "ok")
+    | ["restart"] => ({ s with st := Fs.fresh s.st.fs, pend := [] }, "ok")
+    | ["plant", d1, d2, n, v] =>
+      ({ s with st := { s.st with fs := s.st.fs.put (dashStr d1, dashStr d2, unhexStr n) (.data (unhex v)) } }, "ok")
     | ["r", p, sn, k] => run (.read (unhexStr p, unhexStr sn, unhexStr k))
-    | ["d", p, sn, k, lz] => run (.remove (unhexStr p, unhexStr sn, unhexStr k) (lz == "1"))
     | ["l", p, sn] => run (.list (unhexStr p) (unhexStr sn))
-    | ["la"] => (s, "all " ++ joinOr "," (sortStrs (s.keys.map showKey)))
-    | _ => (s, "bad-op")
+    | ["la"] => (s, match Fs.listAll s.ue s.st.fs with
+                    | some l => "all " ++ joinOr "," (sortStrs (l.map showKey))
+                    | none => "err Other:Failed_to_list_keys")
+    | ["fs"] => (s, "files " ++ joinOr "," (sortStrs (s.st.fs.keys.map showPath)))
+    | "ai" :: id :: rest =>
+      (match mkOp rest with
+       | none => (s, "bad-op")
+       | some op =>
+         match Fs.mutOf s.ue op with
+         | none => (s, showFsAns (Fs.step s.ue s.st op).2)         -- rejected at issue time
+         | some (d, b) => let i := Fs.issue s.st d b
+                          ({ s with st := i.1, pend := (nat! id, i.2) :: s.pend }, "issued"))
+    | ["ax", id] =>
+      (match s.pend.find? (fun e => e.1 == nat! id) with
+       | none => (s, "bad-op")
+       | some e => ({ s with st := Fs.exec s.st e.2, pend := s.pend.filter (fun e' => e'.1 != nat! id) }, "ok"))
+    | _ =>
+      match mkOp ws with
+      | some op => run op
+      | none => (s, "bad-op")
 
 /-! ### c19mup -/
 
